@@ -33,10 +33,10 @@ func isLockWrapperName(n string) bool {
 }
 
 func init() {
-	register(&Rule{ID: "C07.pair", Floor: 120, Also: []string{"C06", "C17"},
+	register(&Rule{ID: "C07.pair", Floor: 120, Also: []string{"C06", "C17", "C08"},
 		Text: "every Lock/RLock is released on every path to every return (explicitly or by a deferred call), with the matching mode; no release of a lock that is not held; every deferred release is registered while the lock is held",
 		Run:  c07Pair})
-	register(&Rule{ID: "C07.order", Floor: 20, Also: []string{"C06"}, AlsoOnly: map[string][]string{"C06": {" reacquire "}}, AlsoFloor: map[string]int{"C06": 0},
+	register(&Rule{ID: "C07.order", Floor: 20, Also: []string{"C06", "C01"}, AlsoOnly: map[string][]string{"C06": {" reacquire "}, "C01": {" distinct"}}, AlsoFloor: map[string]int{"C06": 0, "C01": 0},
 		Text: "lock-order: whenever a lock is requested while another may be held, (1) the edge between their classes must not close a cycle in the class graph, (2) two locks of the same class must be ordered parent-before-child (the second obtained from the first's children map, or the (parent, child) result pair of one walk together with a dominating distinctness test), (3) a lock is never requested while the same object's lock may already be held (directly or inside a callee)",
 		Run:  c07Order})
 }
